@@ -43,6 +43,8 @@ func init() {
 			{ID: "C18-R22", Title: "a rollback only takes away", Floor: 2, Run: rollbackOnlyTakesAway},
 			{ID: "C18-R23", Title: "a host Call leaves the resume point alone (shared with C07-R32)", Floor: 1, Run: aHostCallLeavesTheResumePointAlone},
 			{ID: "C18-R24", Title: "symbols are written by the symbol table only", Floor: 1, Run: symbolsAreWrittenByTheSymbolTableOnly},
+			{ID: "C18-R25", Title: "names are read from their storage", Floor: 3, Run: namesAreReadFromTheirStorage},
+			{ID: "C18-R26", Title: "a rollback puts every part back on every path", Floor: 1, Run: aRollbackPutsEveryPartBack},
 		},
 	})
 }
